@@ -253,7 +253,7 @@ class Gen:
             return [ind + self.render_expr(c, PRIMARY, True)], self.expected_expr(c)
         if k == 2:
             nm = r.choice(["i", "tmp", "res", "lst", "buf"]) + str(r.randint(0, 9))
-            tt, te = self.gen_type(2)
+            tt, te = self.gen_type(r.choice([1, 2, 2]))      # depth 1: also procedure / function types (the `proc` keyword inside a body)
             if "\n" in tt:
                 tt, te = "int4", ("AstTypeBasic", "int4", [])
             return [ind + self.kw("var") + " " + nm + " : " + tt], ("AstLocalVariableDeclaration", nm, [te])
